@@ -600,6 +600,10 @@ var c16Tokens = []string{
 var c16Schemes = []string{"", "http", "https", "grpc", "grpcs", "file", "ftp", "mailto", "ws", "HTTP", "a+b-c.d"}
 
 func c16RandString(rng *rand.Rand) string {
+	return dictMutate(rng, c16RandString0(rng), ":/@?#", 12)
+}
+
+func c16RandString0(rng *rand.Rand) string {
 	switch rng.IntN(5) {
 	case 0, 1:
 		return pick(rng, c16Tokens...)
